@@ -28,25 +28,46 @@
 (* RootWalk is an operation SEQUENCE on one dynamic context: fn:root of    *)
 (* every element and then of its attribute and namespace nodes, which the  *)
 (* implementation creates lazily, i.e. after the first fn:root call.       *)
+(*                                                                         *)
+(* Chain2 / Chain3 are UNPARENTHESISED chains of two and three set         *)
+(* operators over named operand sets; their value is the one of the XPath  *)
+(* EBNF grouping: UnionExpr ::= IntersectExceptExpr (("union" | "|")       *)
+(* IntersectExceptExpr)* and IntersectExceptExpr ::= InstanceofExpr        *)
+(* (("intersect" | "except") InstanceofExpr)* -- union binds loosest,      *)
+(* intersect and except share one level and associate to the left.  The    *)
+(* last parameter tells whether some OTHER grouping would give a different *)
+(* node set (the chain discriminates).                                     *)
+(*                                                                         *)
+(* RawAny: the caller hands a RAW object of the input tree (element,       *)
+(* comment, PI, lxml document-level sibling, the ElementTree) to the       *)
+(* library as context item or variable value.  The XDM node standing for   *)
+(* it IS the node of the tree: same identity, parent, root, order.         *)
 (***************************************************************************)
 EXTENDS XTree, TLC
 
 CONSTANTS MaxItems, ItemKinds, TextOpts, TailOpts, AttrCounts, DeclOpts,
           Variants, RootArgs, Fragments, NsArgs, MaxSibs,
+          SibKinds,       \* kinds of the lxml document-level siblings (subset of {"c", "p"})
           Operands,       \* names of the operand node sets, see Opnd
           MaxSteps,       \* longest operator chain
           AbsPaths,       \* absolute operand paths  (subset of {"//*", "//@*", "//text()"})
           RelPaths,       \* relative operand paths  (subset of {"*", "@*", "text()", ".//*", "."})
           RelRel,         \* TRUE: also pairs of two different relative operands
-          PathCmpOps      \* comparison operators asked with path operands (subset of {"is", "<<", ">>"})
+          PathCmpOps,     \* comparison operators asked with path operands (subset of {"is", "<<", ">>"})
+          ChainOps,       \* operators of the unparenthesised chains (subset of {"union", "intersect", "except"})
+          RawProbes       \* questions asked about a raw tree object, see Raw
 
 VARIABLES cur, res, cmp, steps, dseq, dpar, opnds
 vars == <<ivars, cur, res, cmp, steps, dseq, dpar, opnds>>
 
-SibSeqs == UNION {[1..m -> {"c", "p"}] : m \in 0..MaxSibs}
+SibSeqs == UNION {[1..m -> SibKinds] : m \in 0..MaxSibs}
 
 M == Len(dseq)
 Ranks == 1..M
+
+(* operand sets of the unparenthesised chains: pairwise overlapping, none contained in another on most trees *)
+ChainSeq == <<"odd", "low", "elems", "kids">>
+ChainNames == {ChainSeq[i] : i \in 1..4}
 
 RECURSIVE AncR(_)
 AncR(r) == IF dpar[r] = 0 THEN {} ELSE {dpar[r]} \cup AncR(dpar[r])
@@ -64,6 +85,7 @@ Opnd(name) ==
     [] name = "leaves" -> {r \in Ranks : KindR(r) \in {"c", "p", "sc", "sp"}}
     [] name = "kids"   -> {r \in Ranks : dpar[r] = RootElemR /\ KindR(r) \notin {"a", "ns"}}
     [] name = "odd"    -> {r \in Ranks : r % 2 = 1}
+    [] name = "low"    -> {r \in Ranks : 2 * r <= M + 2}
     [] name = "last"   -> {M}
     [] name = "top"    -> {1}
 
@@ -73,7 +95,7 @@ Init ==
   /\ dseq = [j \in 1..Len(DefSeq) |-> <<DefSeq[j].k, DefSeq[j].src, DefSeq[j].sub>>]
   /\ dpar = LET S == DefSeq IN
             [j \in 1..Len(S) |-> IF DefParent(S[j]) = NoneD THEN 0 ELSE RankIn(S, DefParent(S[j]))]
-  /\ opnds = [nm \in Operands |-> Opnd(nm)]     \* the operand sets, for the binding (variable values)
+  /\ opnds = [nm \in Operands \cup ChainNames |-> Opnd(nm)]    \* the operand sets, for the binding (variable values)
   /\ cur = {RootElemR}
   /\ res = "-"
   /\ cmp = <<>>
@@ -187,6 +209,68 @@ RootWalk ==
   /\ steps' = steps + 1
   /\ Keep
 
+(* ---- unparenthesised chains ---- *)
+Apply(op, X, Y) == CASE op = "union" -> X \cup Y [] op = "intersect" -> X \cap Y [] op = "except" -> X \ Y
+(* value by the EBNF: split at the LAST union (union is left-associative and binds loosest), the union-free
+   rest is folded from the left *)
+RECURSIVE EvalChain(_, _)
+EvalChain(ops, sets) ==      \* Len(sets) = Len(ops) + 1
+  IF ops = <<>> THEN sets[1]
+  ELSE LET us == {k \in 1..Len(ops) : ops[k] = "union"} IN
+       IF us = {}
+       THEN Apply(ops[Len(ops)], EvalChain(SubSeq(ops, 1, Len(ops) - 1), SubSeq(sets, 1, Len(ops))), sets[Len(sets)])
+       ELSE LET k == CHOOSE u \in us : \A w \in us : w <= u IN
+            EvalChain(SubSeq(ops, 1, k - 1), SubSeq(sets, 1, k))
+              \cup EvalChain(SubSeq(ops, k + 1, Len(ops)), SubSeq(sets, k + 1, Len(sets)))
+(* every other way to put parentheses *)
+Alt2(o, S) == {Apply(o[1], S[1], Apply(o[2], S[2], S[3])), Apply(o[2], Apply(o[1], S[1], S[2]), S[3])}
+Alt3(o, S) ==
+  {Apply(o[3], Apply(o[2], Apply(o[1], S[1], S[2]), S[3]), S[4]),
+   Apply(o[3], Apply(o[1], S[1], Apply(o[2], S[2], S[3])), S[4]),
+   Apply(o[2], Apply(o[1], S[1], S[2]), Apply(o[3], S[3], S[4])),
+   Apply(o[1], S[1], Apply(o[3], Apply(o[2], S[2], S[3]), S[4])),
+   Apply(o[1], S[1], Apply(o[2], S[2], Apply(o[3], S[3], S[4])))}
+
+Chain2(o1, o2, i, j, k, disc) ==      \* $A o1 $B o2 $C
+  /\ Live /\ steps = 0
+  /\ i # j /\ j # k /\ i # k
+  /\ LET S == <<opnds[ChainSeq[i]], opnds[ChainSeq[j]], opnds[ChainSeq[k]]>>
+         v == EvalChain(<<o1, o2>>, S) IN
+     /\ disc = (Alt2(<<o1, o2>>, S) # {v})
+     /\ cur' = v
+  /\ res' = "set" /\ cmp' = <<>>
+  /\ steps' = steps + 1
+  /\ Keep
+
+Chain3(o1, o2, o3, i, dir, disc) ==   \* $A o1 $B o2 $C o3 $D, operands = ChainSeq read from i on, forwards / backwards
+  /\ Live /\ steps = 0
+  /\ LET at(q) == ChainSeq[((i - 1 + (IF dir = 1 THEN q ELSE 4 - q)) % 4) + 1]
+         S == <<opnds[at(0)], opnds[at(1)], opnds[at(2)], opnds[at(3)]>>
+         v == EvalChain(<<o1, o2, o3>>, S) IN
+     /\ disc = (Alt3(<<o1, o2, o3>>, S) # {v})
+     /\ cur' = v
+  /\ res' = "set" /\ cmp' = <<>>
+  /\ steps' = steps + 1
+  /\ Keep
+
+(* ---- raw objects of the input tree handed in by the caller ---- *)
+RawRanks == {r \in Ranks : KindR(r) \in {"e", "c", "p", "sc", "sp"} \/ (KindR(r) = "d" /\ rootarg = "tree")}
+Raw(x, pb) ==      \* $v (or the context item) is the raw object of rank x; $n is the node of the tree, $all all nodes
+  /\ Live /\ steps = 0
+  /\ cmp' = <<"raw", pb, x>>
+  /\ CASE pb = "is"        -> res' = "true" /\ cur' = {x}                       \* $v is $n      . is $n
+       [] pb = "self"      -> res' = "set" /\ cur' = {x}                        \* .   $v
+       [] pb = "one"       -> res' = "set" /\ cur' = {x}                        \* $v | $n : ONE node
+       [] pb = "parent"    -> res' = "set" /\ cur' = {dpar[x]} \cap ElemRanks    \* $v/parent::*
+       [] pb = "root"      -> res' = "set" /\ cur' = {TopR(x)}                  \* root($v)
+       [] pb = "before"    -> res' = (IF x < M THEN "true" ELSE "false") /\ cur' = {x, M}     \* $v << $last
+       [] pb = "intersect" -> res' = "set" /\ cur' = {x}                        \* $all intersect $v
+       [] pb = "except"    -> res' = "set" /\ cur' = Ranks \ {x}                \* $all except $v
+       [] pb = "list"      -> res' = "set" /\ cur' = RawRanks                   \* $all intersect $vs  (a list of raw objects)
+  /\ steps' = steps + 1
+  /\ Keep
+RawAny == \E x \in RawRanks, pb \in RawProbes : (pb = "list" => x = RootElemR) /\ Raw(x, pb)
+
 SetOps == {"union", "intersect", "except", "rexcept"}
 Fns == {"innermost", "outermost", "root"}
 CmpOps == {"is", "<<", ">>"}
@@ -197,6 +281,11 @@ Next == \/ \E op \in SetOps, name \in Operands : SetOp(op, name)
         \/ PathAny
         \/ PathCmpAny
         \/ RootWalk
+        \/ \E o1 \in ChainOps, o2 \in ChainOps, i \in 1..4, j \in 1..4, k \in 1..4, disc \in BOOLEAN :
+              Chain2(o1, o2, i, j, k, disc)
+        \/ \E o1 \in ChainOps, o2 \in ChainOps, o3 \in ChainOps, i \in 1..4, dir \in {0, 1}, disc \in BOOLEAN :
+              Chain3(o1, o2, o3, i, dir, disc)
+        \/ RawAny
 
 Spec == Init /\ [][Next]_vars
 
@@ -255,5 +344,18 @@ PathLaws == steps = 0 =>
        /\ PathSet("//*", f) \cup {RootElemR} = ElemRanks
   /\ Cardinality({TopR(x) : x \in Ranks}) = 1           \* fn:root is the same node for every node of the tree
 
-Laws == OrderLaw /\ SetLaws /\ FnLaws /\ PathLaws
+(* the EBNF evaluation on parenthesis-free chains agrees with the explicit groupings it stands for *)
+ChainLaws == steps = 0 =>
+  LET A == opnds["odd"]  B == opnds["low"]  C == opnds["elems"]  Dd == opnds["kids"] IN
+  /\ EvalChain(<<"except", "intersect">>, <<A, B, C>>) = (A \ B) \cap C
+  /\ EvalChain(<<"intersect", "except">>, <<A, B, C>>) = (A \cap B) \ C
+  /\ EvalChain(<<"union", "except">>, <<A, B, C>>) = A \cup (B \ C)
+  /\ EvalChain(<<"except", "union">>, <<A, B, C>>) = (A \ B) \cup C
+  /\ EvalChain(<<"union", "intersect">>, <<A, B, C>>) = A \cup (B \cap C)
+  /\ EvalChain(<<"except", "except">>, <<A, B, C>>) = (A \ B) \ C
+  /\ EvalChain(<<"except", "union", "intersect">>, <<A, B, C, Dd>>) = (A \ B) \cup (C \cap Dd)
+  /\ EvalChain(<<"union", "except", "intersect">>, <<A, B, C, Dd>>) = A \cup ((B \ C) \cap Dd)
+  /\ EvalChain(<<"except", "intersect", "except">>, <<A, B, C, Dd>>) = (((A \ B) \cap C) \ Dd)
+
+Laws == OrderLaw /\ SetLaws /\ FnLaws /\ PathLaws /\ ChainLaws
 =============================================================================
